@@ -26,3 +26,13 @@ Proof. vm_compute. reflexivity. Qed.
 Lemma dev_R6_refutes : refutes only_R6 witness_R6 = true.
 Proof. vm_compute. reflexivity. Qed.
 
+(* the pre-fix behaviour of R7 is neither accepted by the resumed automaton (whatever the flags) nor by the monitor *)
+Definition caught (c : rcase) : bool :=
+  match c with
+  | CRec sh im tr verdict determined _ =>
+      negb (raccepts dev_all sh im tr) && determined && negb (mon_converges dev_all sh im tr verdict determined)
+  | CRun _ _ _ => false
+  end.
+
+Lemma R7_before_fix_is_caught : caught witness_R7_before_fix = true.
+Proof. vm_compute. reflexivity. Qed.
